@@ -33,9 +33,19 @@ import (
 
 // ---------------------------------------------------------------- light-client provider reading the real stores
 
+// The provider stands for light/provider/http in front of a (possibly lying) node: what the node
+// serves is validated the way http.LightBlock does (requested height, LightBlock.ValidateBasic) and
+// a bad block is answered with ErrBadLightBlock.
+//   lie     : applied to the node's FIRST answer for height lieH
+//   persona : "break" = after that first answer the node serves, for height tip-1, a well-formed
+//             header that does not chain to the trusted one (backwards verification fails there)
 type c20Provider struct {
-	ch  *c20Chain
-	lie func(h int64, lb *types.LightBlock) *types.LightBlock
+	ch      *c20Chain
+	lie     func(h int64, lb *types.LightBlock) *types.LightBlock
+	lieH    int64
+	persona string
+	served  int // answers given for lieH
+	calls   int
 }
 
 var _ provider.Provider = (*c20Provider)(nil)
@@ -53,6 +63,7 @@ func (ch *c20Chain) lightBlock(h int64) *types.LightBlock {
 }
 
 func (p *c20Provider) LightBlock(_ context.Context, height int64) (*types.LightBlock, error) {
+	p.calls++
 	if height == 0 {
 		height = p.ch.tip
 	}
@@ -63,29 +74,48 @@ func (p *c20Provider) LightBlock(_ context.Context, height int64) (*types.LightB
 		return nil, provider.ErrLightBlockNotFound
 	}
 	lb := p.ch.lightBlock(height)
-	if p.lie != nil {
+	switch {
+	case p.lie != nil && height == p.lieH && p.served == 0:
+		p.served++
 		lb = p.lie(height, lb)
+	case p.persona == "break" && p.lie != nil && height == p.ch.tip-1:
+		// a header that is well formed but is not the parent of the trusted header
+		x := c20LBFrom(lb)
+		x.hdr.AppHash = p.ch.nm.junkHash()
+		x.commit.BlockID.Hash = x.hdr.Hash()
+		lb = x.build()
+	}
+	if lb.Height != height {
+		return nil, provider.ErrBadLightBlock{Reason: fmt.Errorf("height %d responded doesn't match height %d requested", lb.Height, height)}
+	}
+	if err := lb.ValidateBasic(p.ch.desc.ID); err != nil {
+		return nil, provider.ErrBadLightBlock{Reason: err}
 	}
 	return lb, nil
 }
 
 func (p *c20Provider) ReportEvidence(context.Context, types.Evidence) error { return nil }
 
-func (ch *c20Chain) newLC(lie func(int64, *types.LightBlock) *types.LightBlock, warm bool) *light.Client {
-	h1 := ch.blockStore.LoadBlockMeta(1)
+// mode: "fresh" trusts height 1, "warm" every height, "top" only the tip (lower heights go backwards)
+func (ch *c20Chain) newLC(lie func(int64, *types.LightBlock) *types.LightBlock, lieH int64, mode, persona string) *light.Client {
+	th := int64(1)
+	if mode == "top" {
+		th = ch.tip
+	}
+	hdr := ch.blockStore.LoadBlockMeta(th).Header
 	primary := &c20Provider{ch: ch}
 	lc, err := light.NewClient(context.Background(), ch.desc.ID,
-		light.TrustOptions{Period: 1000 * time.Hour, Height: 1, Hash: h1.Header.Hash()},
-		primary, []provider.Provider{&c20Provider{ch: ch}}, dbs.New(dbm.NewMemDB(), ""),
+		light.TrustOptions{Period: 1000 * time.Hour, Height: th, Hash: hdr.Hash()},
+		primary, []provider.Provider{&c20Provider{ch: ch}, &c20Provider{ch: ch}}, dbs.New(dbm.NewMemDB(), ""),
 		light.Logger(log.NewNopLogger()), light.MaxRetryAttempts(1))
 	c20Must(err)
-	if warm {
+	if mode == "warm" {
 		for h := int64(2); h <= ch.tip; h++ {
 			_, err := lc.VerifyLightBlockAtHeight(context.Background(), h, time.Now())
 			c20Must(err)
 		}
 	}
-	primary.lie = lie
+	primary.lie, primary.lieH, primary.persona = lie, lieH, persona
 	return lc
 }
 
